@@ -132,7 +132,10 @@ func (e *caseEval) cases(v ssa.Value, d int) []vcase {
 				return e.mapCases(e.cases(a.X, d+1), func(s string) string { return fieldName(a.X.Type(), a.Field) + "(" + s + ")" })
 			case *ssa.IndexAddr:
 				if _, isConst := a.Index.(*ssa.Const); !isConst {
-					return e.mapCases(e.cases(a.X, d+1), func(s string) string { return "at(" + s + ",*)" })
+					if involvesPhi(a.Index, 0) {
+						return e.mapCases(e.cases(a.X, d+1), func(s string) string { return "at(" + s + ",*)" })
+					}
+					return e.cross([][]vcase{e.cases(a.X, d+1), e.cases(a.Index, d+1)}, func(ts []string) string { return "at(" + ts[0] + "," + ts[1] + ")" })
 				}
 			case *ssa.Alloc, *ssa.FreeVar:
 				if r := resolve(x); r != ssa.Value(x) {
@@ -552,4 +555,27 @@ func inlinable(f *ssa.Function) bool {
 		return false
 	}
 	return true
+}
+
+// involvesPhi: the value is (derived by arithmetic from) a loop-carried variable.
+func involvesPhi(v ssa.Value, d int) bool {
+	if d > 4 {
+		return true
+	}
+	switch x := stripConv(v).(type) {
+	case *ssa.Phi:
+		return true
+	case *ssa.BinOp:
+		return involvesPhi(x.X, d+1) || involvesPhi(x.Y, d+1)
+	case *ssa.UnOp:
+		if x.Op == token.MUL {
+			if r := resolve(x); r != ssa.Value(x) {
+				return involvesPhi(r, d+1)
+			}
+			if _, ok := x.X.(*ssa.Alloc); ok {
+				return true // a local assigned more than once
+			}
+		}
+	}
+	return false
 }
